@@ -636,10 +636,25 @@ def check_eff(ctx, res, W, host_cpus):
                 for main in (1, 0):
                     rows_none.append(dict(cls=cls, level=level, main=main, daemon=0, depth=0, c=c, mode="env", id=len(rows_none), mp_none=True))
     pnone = W.start(dict(kind="eff", rows=rows_none), env={"JOBLIB_MULTIPROCESSING": "0"})
+    # other start methods of the multiprocessing pool (JOBLIB_START_METHOD): the resolution of n_jobs and the nesting guards
+    # (daemon process, thread other than the main one) do not depend on how worker processes would be started
+    rows_sm, psm = {}, {}
+    for sm in ("spawn", "forkserver"):
+        rows_sm[sm] = []
+        for c in ([1, 4] if not ctx.thorough else [1, 2, 4, 16]):
+            for cls in "TML":
+                for level in [0, 1, 2]:
+                    for main in (1, 0):
+                        rows_sm[sm].append(dict(cls=cls, level=level, main=main, daemon=0, depth=0, c=c, mode="env",
+                                                id=len(rows_sm[sm]), start_method=sm))
+        psm[sm] = W.start(dict(kind="eff", rows=rows_sm[sm]), env={"JOBLIB_START_METHOD": sm})
     results = []
     for s, p in zip([s for s in shards if s], procs):
         results.extend(zip(s, W.finish(p, timeout=900)))
     results.extend(zip(rows_none, W.finish(pnone)))
+    for sm in rows_sm:
+        results.extend(zip(rows_sm[sm], W.finish(psm[sm])))
+        res.count("eff:start-method=" + sm, len(rows_sm[sm]))
     requests, expected, descs = [], [], []
     for row, out in results:
         mpn = bool(row.get("mp_none"))
